@@ -30,7 +30,7 @@ RULE = ("case = (Parameter type, constraint configuration, candidate value), all
         "verdict (accept / reject with ValueError|TypeError / no claim), identity of the read-back after acceptance, previous "
         "value after rejection. Non-trivial = the value lies on or next to a constraint boundary (equals/neighbours a bound, "
         "NaN/inf, None, bool offered to a numeric type, date vs datetime, length +-1, == but not `is` a listed object, regex "
-        "prefix match); distinct = distinct (type, configuration, value).")
+        "prefix match); distinct = distinct (type, configuration, value). Round 5: the labels of a dict-declared Selector are among the candidate values (a label is not a value).")
 ASSUMPTIONS = [
     "trusted base: vlib/specs.py, written from the docstrings / user guide",
     "Path/Filename/Foldername/FileSelector/MultiFileSelector (constraint = file system), Array/DataFrame/Series (numpy/pandas "
